@@ -5,10 +5,15 @@ import json
 import random
 
 
-def build(case, order):
+def build(case, order, g=None, nodes=None):
+    """adds the nodes in `order` (to a new graph, or to an existing one) and links every edge whose two ends exist and
+    at least one of them is new"""
     from maltoolbox.attackgraph import AttackGraph, AttackGraphNode
-    g = AttackGraph()
-    nodes = {}
+    fresh = g is None
+    if fresh:
+        g = AttackGraph()
+        nodes = {}
+    old_nodes = set(nodes)
     for i in order:
         kind = case['kind'][i - 1]
         n = AttackGraphNode(type=kind, name='n%d' % i)
@@ -27,8 +32,11 @@ def build(case, order):
             n.ttc = {'type': 'function', 'name': 'Enabled' if case['st'][i - 1] == 10 else 'Disabled', 'arguments': []}
         nodes[i] = n
         g.add_node(n)
-    for c in order:
-        for p in sorted(case['par'][c - 1], key=lambda x: order.index(x)):
+    pos = {x: k for k, x in enumerate(sorted(old_nodes) + list(order))}
+    for c in sorted(nodes, key=lambda x: pos[x]):
+        for p in sorted((q for q in case['par'][c - 1] if q in nodes), key=lambda x: pos[x]):
+            if c in old_nodes and p in old_nodes:
+                continue                      # linked in the first stage
             nodes[p].children.append(nodes[c])
             nodes[c].parents.append(nodes[p])
     return g, nodes
@@ -75,6 +83,10 @@ class Adapter:
             o = wrongN[0]
             res['div'].append(self.div(case, 'necessity', {'order': o, 'want': case['N'], 'got': results[o][1],
                                                            'orders_wrong': len(wrongN), 'orders': len(results)}, feats))
+        # NOT checked: re-analysis of a graph that already carries labels (analyse, extend, analyse again). The
+        # specification's lemma Gen_Apriori!ExtensionLemma says what the result would have to be, but the pinned
+        # implementation only propagates on change and leaves new descendants of already-labelled steps at their
+        # defaults; the property quantifies over graphs whose labels are at their initial value (DESIGN.md section 14).
         if any(case['par'][i] for i in range(n)):
             res['nontrivial'] = json.dumps([case['kind'], case['par'], case['st'], case['dist'], case.get('supp')])
         res['sample'] = {k: case[k] for k in ('n', 'kind', 'par', 'st', 'dist', 'V', 'N')}
